@@ -17,7 +17,8 @@ EXPLANATION = ("Decides structural clauses of C19, not allocator totals or run t
 ASSUMPTIONS = ["values that derive only from u8/u16 reads are bounded by type", "origin analysis is flow-insensitive (may over-taint: reviewed table for exceptions)"]
 
 SINK = r'Vec::<.*>::with_capacity$|vec::from_elem$|BytesMut::(with_capacity|zeroed|reserve|resize)$|Vec::<.*>::(reserve|reserve_exact|resize)$|String::with_capacity$|VecDeque::<.*>::with_capacity$'
-TAINT = r'call:.*(read_be_u32|read_le_u32|read_be_u64)$|field:PacketLength::(Fixed|Partial)\.0$|call:.*PacketLength::maybe_len$|field:SubpacketLength::Five\.0$|call:.*SubpacketLength::len$|call:.*PacketHeader::packet_length$'
+TAINT = r'call:.*(read_be_u32|read_le_u32|read_be_u64)$|field:PacketLength::(Fixed|Partial)\.0$|call:.*PacketLength::maybe_len$|field:SubpacketLength::Five\.0$|call:.*SubpacketLength::len$|call:.*PacketHeader::packet_length$' \
+        r'|field:.*\.(max_message_size|max_buffer_limit)$'      # a configured CEILING is no better than a declared length: memory follows the input, not the limit
 SANITISER = r'call:.*(cmp::Ord::min|cmp::min)$'
 
 
@@ -31,6 +32,7 @@ def size_arg(t):
 def run(ctx):
     P = 'C19'
     r_alloc(ctx, P)
+    no_allocation_by_a_ceiling(ctx, P)
     r_quad(ctx, P)
     r_rescan(ctx, P)
     discarded_buffers(ctx, P)
@@ -526,3 +528,39 @@ def rec(ctx, P):
     ctx.check(P + ':S19-4:rec-inventory', 'R-rec', 'every recursive component is in the reviewed inventory (shared with C04)', not unknown, missing=unknown[:3] or None, count=len(comps))
     from rules import c04
     c04.embedded_depth_guard(ctx, P)
+
+
+CEILING = r'field:.*\.(max_message_size|max_buffer_limit)$'
+
+
+def no_allocation_by_a_ceiling(ctx, P):
+    """A configured ceiling (`max_message_size` of the SEIPDv1 check-first mode: 1 GiB by default; the dearmor limit) says how much
+    the library is WILLING to buffer, not how much there is: memory has to follow the octets actually read.  A helper whose length
+    parameter receives such a ceiling at some call site (`fill_buffer_bytes(source, buffer, max_message_size)`) must not size an
+    allocation (`reserve`, `with_capacity`, `resize`, `vec![..; n]`) by that parameter."""
+    f = ctx.f
+    bodies = {p: ctx.wrap(r) for p, r in f.bodies.items() if not panics.skip_body(p, r)}
+    ceiling_params = {}
+    for p, b in bodies.items():
+        for i, t in b.calls():
+            callee = t['f'].get('res') if t['f'].get('res') in bodies else (t['f'].get('fn') if t['f'].get('fn') in bodies else None)
+            if not callee:
+                continue
+            for k, a in enumerate(t['args']):
+                if has_origin(b.operand_origins(a), CEILING):
+                    cty = bodies[callee].r['locals'][k + 1]['ty'] if k + 1 < len(bodies[callee].r['locals']) else ''
+                    if re.match(r'^(std::option::Option<)?(usize|u32|u64)>?$', cty or ''):
+                        ceiling_params.setdefault((callee, k + 1), site(b, i))
+    n = 0
+    for (callee, k), where in sorted(ceiling_params.items()):
+        b = bodies[callee]
+        n += 1
+        bad = []
+        for i, t in b.calls(SINK):
+            a = size_arg(t)
+            if a is not None and has_origin(b.operand_origins(a), r'^param:%d$' % k):
+                bad.append(i)
+        ctx.check('%s:S19-1:no-allocation-by-ceiling:%s#%d' % (P, callee, k), 'R-alloc', '%s, which is handed a configured ceiling as parameter %d (at %s), sizes no allocation by it' % (callee.split('::')[-1], k, where),
+                  not bad, function=callee, site=site(b, bad[0]) if bad else None,
+                  missing=None if not bad else 'the allocation at %s is sized by the parameter that carries the ceiling: every call buffers the whole limit (1 GiB by default) whatever the input is' % site(b, bad[0]))
+    ctx.floor(P + ':S19-1:ceiling-params:floor', 'helper parameters that receive a configured ceiling', n, 1)
